@@ -153,9 +153,11 @@ func (c07) Run(t *tape.Tape, st *Stats) *Violation {
 		cfg.ErrID = 1 + faultOff
 	}
 	cons := DrawConsumer(t)
+	mid := DrawMidFile(t)
 
 	src := simio.NewSource(simio.Bytes(in.Data), cfg)
-	res := SafeLoad(loader, src)
+	rd, ss := mid.Wrap(src)
+	res := SafeLoad(loader, rd)
 	duringLoad := src.Delivered
 	errDuringLoad := src.ErrFired
 	panicDuringLoad := src.PanicFired
@@ -218,6 +220,7 @@ func (c07) Run(t *tape.Tape, st *Stats) *Violation {
 	st.Evals++
 	st.Class(in.Class)
 	deliveryStats(st, src)
+	mid.Stats(st, ss)
 	straddleProbe(st, src, in.Fields, duringLoad)
 	st.Probe("error_during_load", errDuringLoad > 0)
 	st.Probe("error_during_replay", src.ErrFired > errDuringLoad)
@@ -231,7 +234,7 @@ func (c07) Run(t *tape.Tape, st *Stats) *Violation {
 	render := func() interface{} {
 		return map[string]interface{}{
 			"input": in.Desc, "input_class": in.Class, "input_len": len(in.Data), "stored_faults": in.Faults, "interposed_load": interposed, "chained_through": chain,
-			"loader": loader.Name, "delivery": cfg.String(), "consumer": cons.String(),
+			"loader": loader.Name, "delivery": cfg.String() + mid.String(), "consumer": cons.String(),
 			"delivered_during_load": duringLoad, "delivered_total": src.Delivered,
 			"load_error": fmt.Sprint(res.Err), "replayed_len": got.N, "replay_error": fmt.Sprint(got.Err),
 			"delivery_log": src.LogString(), "input_hex": hex(in.Data, 512),
